@@ -1292,6 +1292,14 @@ theorem fact_once_only_store_keys :
     Facts.C02.s2sNonceStoreKeys = ["s2sNonceStore.PutIfAbsent(nonce)"] ∧
     Facts.C02.codeStoreKeys = ["oauthCodeStore.Delete(*request.Code)", "oauthCodeStore.GetAndDelete(*request.Code)"] := by decide
 
+/-- every store a request obtains through `GetStore` (the accessors call it per request) carries the DATABASE's one mutex, and
+    `PutIfAbsent` / `GetAndDelete` are Get + Put / Delete under that mutex: this is what makes one store method call one atomic
+    step across requests (the assumption of the at-most-once theorems) -/
+theorem fact_get_store_shares_database_mutex :
+    "mutex=&s.mutex" ∈ Facts.C02.getStoreInitInMemory ∧ "mutex=s.mutex" ∈ Facts.C02.getStoreInitRedis ∧
+    Facts.C02.chainPutIfAbsent = ["Lock", "defer{", "Unlock", "}", "Get", "Put"] ∧
+    Facts.C02.chainGetAndDelete.take 6 = ["Lock", "defer{", "Unlock", "}", "Get", "Delete"] := by decide
+
 /-- **dpop_valid_only_if.** The node answers `valid` for a proof of possession only if the proof parsed (signature under its
     own embedded key), that key's thumbprint IS the thumbprint the caller supplied (the `cnf.jkt` introspection reported =
     the key established at issuance), the proof names exactly this method and this URL, its `ath` is the digest of exactly
